@@ -326,7 +326,34 @@ def rule_d(ctx, out):
     out.ok({"fixpoint_drivers_listed": len(drivers)})
 
 
+def rule_e(ctx, out):
+    """No statically certain hang: a `while` loop whose condition nothing in its body can change (and without break/return/raise)."""
+    from ..core.idioms import stuck_while_loops, emptiness_loops_without_variant
+    reach = reachable_precise(ctx)
+    n = 0
+    for q, f in sorted(reach.items()):
+        loops = [x for x in own_nodes(f.node) if isinstance(x, ast.While)]
+        n += len(loops)
+        stuck = list(stuck_while_loops(ctx, f))
+        for loop in stuck:
+            out.bad(f"loop-cannot-progress:{f.name}:{short(loop.test, 40)}", f"in {f.name} nothing in the body of `while {short(loop.test, 40)}` can change "
+                    f"its condition (no re-binding, no in-place mutation — also not through a callee — and no break/return): the per-block pipeline "
+                    f"never terminates once the loop is entered", where(f, loop))
+        for loop, x in emptiness_loops_without_variant(ctx, f):
+            if loop in stuck:
+                continue
+            stuck.append(loop)
+            out.bad(f"loop-has-no-variant:{f.name}:{x}", f"`while {short(loop.test, 40)}` in {f.name}: on some path through the body the list `{x}` is never "
+                    f"shortened (only re-bound to a same-length transformation, and no callee consumes it): the loop cannot reach its exit", where(f, loop))
+        for _ in range(len(loops) - len(stuck)):
+            out.ok()
+    out.samples.append({"while_loops_checked": n})
+    if n < 40:
+        raise AnalysisError(f"only {n} while loops found in reachable code")
+
+
 RULES = [
+    ("C10.e", "no while loop with an unchangeable condition", 40, rule_e),
     ("C10.a", "exception containment on the per-block path", 6, rule_a),
     ("C10.b", "constant folding cannot raise or diverge", 15, rule_b),
     ("C10.d", "fixpoint drivers (informational)", 1, rule_d),
